@@ -332,7 +332,7 @@ def observe(cfg, o, s):
         res += [len(script), loc[0], loc[1], loc[2], ans, int(('C', i) in en), len(exns)] + [EXN_CODE[e] for e in exns]
     for h, status in enumerate(st):
         loc = st_loc(status)
-        e = status[1] if status[0] in ('S71', 'SDone') else None
+        e = status[1] if status[0] == 'SDone' else None
         res += [loc[0], loc[1], loc[2], int(('S', h) in en), 0 if e is None else EXN_CODE[e]]
     return res
 
